@@ -144,4 +144,180 @@ theorem keyword_forms_rejected (U : UserDiv) (d : Draws) (v t : Val) :
     DFn.call U d .setValue v none none = .error .typeError := by
   simp [DFn.call]
 
+/-! ## `divide_value`: which divider, on what -/
+
+/-- the default divider is `set` for variables and `null` for processes (`_get_divider`) -/
+theorem default_divider (a : Attrs) (h : a.divider = some .dflt) :
+    (a.proc = none → getDivider a = some (.fn .set)) ∧
+    (∀ p, a.proc = some p → p.topo ≠ [] → getDivider a = some (.fn .null)) ∧
+    (∀ p, a.proc = some p → p.topo = [] → getDivider a = some (.fn .set)) := by
+  have hs : accessDivider "set" = some .set := by decide
+  have hn : accessDivider "null" = some .null := by decide
+  refine ⟨?_, ?_, ?_⟩
+  · intro hp; simp [getDivider, h, hp, hs]
+  · intro p hp ht
+    have : p.topo.isEmpty = false := by cases hpt : p.topo <;> simp_all
+    simp [getDivider, h, hp, hn, this]
+  · intro p hp ht
+    simp [getDivider, h, hp, hs, ht]
+
+/-- **A branch-level divider takes precedence**: when a node carries a divider function, the
+result is that function applied to the node's whole value; the children's dividers are not
+consulted (they do not occur on the right-hand side). -/
+theorem branch_divider_precedence (E : Env) (root : Store) (w : World) (pos : Path) (a : Attrs)
+    (inner : List (String × Store)) (f : DFn) (h : getDivider a = some (.fn f)) :
+    divideValue E root w pos (.mk a inner) =
+      match f.call E.userDiv w.draws ((Store.mk a inner).getValue w.heap) none none with
+      | .ok (some p, d) =>
+        let r := shareResult { w with draws := d } f
+          (if inner.isEmpty && a.proc.isNone then a.value else .own ((Store.mk a inner).getValue w.heap)) p
+        .ok (some r.1, r.2)
+      | .ok (none, d) => .ok (none, { w with draws := d })
+      | .error e => .error e := by
+  unfold divideValue
+  simp only [h]
+  rfl
+
+/-- without a divider of its own, a branch divides its children one by one, in order, each at its own
+path, threading the random draws; a child whose division is falsy (`null`) is left out -/
+theorem divide_value_children (E : Env) (root : Store) (w : World) (pos : Path) (a : Attrs)
+    (k : String) (c : Store) (rest : List (String × Store)) (h : getDivider a = none) :
+    divideValue E root w pos (.mk a ((k, c) :: rest)) =
+      (match divideValue.go E root w pos ((k, c) :: rest) with
+       | .ok (d1, d2, w') => .ok (some (.node d1, .node d2), w')
+       | .error e => .error e) ∧
+    divideValue.go E root w pos ((k, c) :: rest) =
+      (match divideValue E root w (pos ++ [k]) c with
+       | .error e => .error e
+       | .ok (r, w') =>
+         match divideValue.go E root w' pos rest with
+         | .error e => .error e
+         | .ok (d1, d2, w'') =>
+           match r with
+           | some (x, y) => .ok ((k, x) :: d1, (k, y) :: d2, w'')
+           | none => .ok (d1, d2, w'')) := by
+  constructor
+  · rw [divideValue]; simp only [h]; rfl
+  · rw [divideValue.go]; rfl
+
+
+/-- **Daughter state = defaults ⊕ divided ⊕ explicit initial state**, at a leaf and at one merge step:
+`set_value` gives the leaf its share (identity kept), `apply_defaults` fills a leaf that got nothing
+with its schema default and leaves every other leaf alone, and an explicit non-dict initial value
+replaces the divided one in the merged state. -/
+theorem daughter_leaf_state (h : Heap) (a : Attrs) :
+    (∀ fuel sv, setValue h (fuel + 1) (.mk a []) (.leaf sv)
+        = .ok (.mk { a with value := sv, proc := none } [])) ∧
+    (a.proc = none → h.read a.value = .none →
+        applyDefaults h (.mk a []) = .mk { a with value := .own a.default } []) ∧
+    (a.proc = none → h.read a.value ≠ .none → applyDefaults h (.mk a []) = .mk a []) ∧
+    (∀ kvs k v rest, v.isDict = false →
+        mergeDS h (.node kvs) ((k, v) :: rest) = mergeDS h (.node (AL.set k (.leaf (.own v)) kvs)) rest) := by
+  refine ⟨?_, ?_, ?_, ?_⟩
+  · intro fuel sv; simp [setValue]
+  · intro hp hv; simp [applyDefaults, hp, hv]
+  · intro hp hv
+    simp only [applyDefaults, hp]
+    split
+    · rename_i heq; simp_all
+    · rfl
+  · intro kvs k v rest hv
+    cases v <;> simp_all [mergeDS, Val.isDict]
+
+
+example : applyDefaults [] (.mk { default := .int 7 } []) = .mk { default := .int 7, value := .own (.int 7) } [] := by
+  rfl
+
+/-- **Frame of division**: in the branch holding the mother, every child other than the mother and
+the daughters is the same node afterwards (same values, same schema, same subtree). -/
+theorem divide_frame (E : Env) (w w' : World) (s s' : Store) (mother : String) (daughters : List Val)
+    (kvs : KVs) (hmo : KV.lookup "mother" kvs = some (.str mother))
+    (hda : KV.lookup "daughters" kvs = some (.list daughters))
+    (h : divide E w s (.dict kvs) = .ok (w', s')) (k : String) (hk : k ≠ mother)
+    (hd : ∀ d ∈ daughters, daughterKey d ≠ some k) :
+    AL.lookup k s'.inner = AL.lookup k s.inner :=
+  divide_frame_lemma E w w' s s' mother daughters kvs hmo hda h k hk hd
+
+/-! ## Independence of the daughters -/
+
+/-- **Independence, the part that holds** (`_partial`: the full statement — *no* update of one
+daughter ever changes the other — is refuted below, finding F12).  Updating a variable leaves the
+heap of shared objects untouched — so every other variable, in particular every variable of the
+other daughter, reads the same value — provided the updated variable owns its value (it is not a
+reference handed to both daughters by `set`/`set_value`) or the updater does not hand back the
+object it was given (anything but `dict_value`/`null`). -/
+theorem independent_partial (E : Env) (fuel : Nat) (w w' : World) (a : Attrs) (u : Val) (s' : Store)
+    (hm : ∀ kvs, u = .dict kvs → KV.lookup Generated.multiUpdateKey kvs = none)
+    (h : applyUpdate E (fuel + 1) w (.mk a []) u = .ok (w', s'))
+    (hsafe : (∀ ad, a.value ≠ .ref ad) ∨
+             (∀ f, leafUpdater a.updater u = some f → f.keepsObject = false)) :
+    w'.heap = w.heap ∧ ∀ sv, w'.heap.read sv = w.heap.read sv := by
+  have key : w'.heap = w.heap := by
+    rw [applyUpdate_leaf E fuel w a u hm] at h
+    unfold leafResult at h
+    split at h
+    · simp at h
+    · cases hl : leafApply E a (w.heap.read a.value) u with
+      | error e => simp [hl] at h
+      | ok r =>
+        obtain ⟨v, keeps⟩ := r
+        simp only [hl] at h
+        split at h
+        · exfalso
+          rcases hsafe with hs | hs
+          · exact hs _ (by assumption)
+          · obtain ⟨f, hf, hkf⟩ := leafApply_keeps E a _ u v hl
+            rw [hs f hf] at hkf; cases hkf
+        · injection h with h
+          injection h with h1 _
+          rw [← h1]
+  exact ⟨key, fun sv => by rw [key]⟩
+
+/-! ### The full statement fails: finding F12, reproduced by the model -/
+
+def E0 : Env := ⟨fun a b m => if a = b then some m else none, fun _ => none, fun _ => none⟩
+
+/-- mother `m` under `agents`: one process declaring `internal.d` (a dict, updater `dict_value`,
+default divider) and `internal.n` (split) -/
+def f12Procs : Val :=
+  .dict [("agents", .dict [("m", .dict [("p0", .dict [("__proc__", .dict [
+    ("pid", .str "pid0"),
+    ("ports", .dict [("port0", .dict [
+      ("d", .dict [("_default", .dict [("x", .int 1)]), ("_updater", .str "dict_value")]),
+      ("n", .dict [("_default", .int 4), ("_divider", .str "split")])])]),
+    ("topo", .dict [("port0", .list [.str "internal"])])])])])])]
+
+def f12Divide : Val :=
+  .dict [("agents", .dict [("_divide", .dict [("mother", .str "m"),
+    ("daughters", .list [.dict [("key", .str "m0")], .dict [("key", .str "m1")]])])])]
+
+def f12Mutate : Val :=
+  .dict [("agents", .dict [("m0", .dict [("internal", .dict [
+    ("d", .dict [("_add", .list [.dict [("key", .str "y"), ("state", .int 2)]])])])])])]
+
+/-- the value of daughter `m1`'s variable `d` before and after daughter `m0` alone is updated -/
+def f12Run : Except Err (Option Val × Option Val) := do
+  let s ← buildGenerate f12Procs (.dict [])
+  let (w1, s1) ← applyUpdateTop E0 { draws := { choices := [true] } } s f12Divide
+  let (w2, s2) ← applyUpdateTop E0 w1 s1 f12Mutate
+  let rd (w : World) (s : Store) := (s.resolve ["agents", "m1", "internal", "d"]).map (·.getValue w.heap)
+  pure (rd w1 s1, rd w2 s2)
+
+
+/-- number of keys of an observed dict value -/
+def dictLen : Option Val → Nat
+  | some (.dict kvs) => kvs.length
+  | _ => 0
+
+/-- **F12.** The default `set` divider hands the same dict to both daughters; `dict_value` updates
+it in place; so an update of daughter `m0` alone changes what daughter `m1` holds: one key before,
+two after.  (The same witness is replayed on the implementation by the check's corpus.) -/
+theorem independent_fails_F12 :
+    (match f12Run with | .ok (b, a) => (dictLen b, dictLen a) | _ => (0, 0)) = (1, 2) ∧
+    Unmentioned f12Mutate ["agents", "m1", "internal", "d"] := by
+  refine ⟨by decide +kernel, ?_⟩
+  refine .branch (by decide) (by decide) ?_
+  intro kv hkv hk; simp at hkv; subst hkv
+  exact .branch (by decide) (by decide) (by intro kv hkv hk; simp at hkv; subst hkv; simp at hk)
+
 end VivProps.C11
